@@ -264,6 +264,7 @@ type explorer struct {
 	stubState map[string]any  // per-path state of stubs (model file system ...)
 	out       strings.Builder // captured stdout of the path
 	exitCode  int
+	inInit    bool
 }
 
 func (e *explorer) stdout(s string) { e.out.WriteString(s) }
@@ -819,7 +820,9 @@ func (e *explorer) runPath(fn *ssa.Function, prefix []int32) {
 			}
 		}()
 		// package initialisation (bodies only for own packages) then harness
+		e.inInit = true
 		call(i, nil, 0, e.cfg.Pkg.Func("init"), nil)
+		e.inInit = false
 		call(i, nil, 0, fn, nil)
 		completed = true
 	}()
